@@ -302,7 +302,19 @@ class World(Domain):
 
     def _constants(self, name):
         if name in _CONST_PRED:
-            return True, Prim(_CONST_PRED[name], name)
+            model = _CONST_PRED[name]
+            real = self.repo.functions.get("pysmt.constants." + name)
+            if real is None:
+                return True, Prim(model, name)
+            fn = Func(real[1], real[0])
+
+            def hybrid(it, a, k, model=model, fn=fn):
+                # concrete Python values: the real function of pysmt/constants.py is interpreted (gmpy2 and z3
+                # absent, as in the pinned environment); symbolic values: the sort-kind model
+                if any(isinstance(x, Abs) for x in a) or k:
+                    return model(it, a, k)
+                return it.call_func(fn, list(a), {})
+            return True, Prim(hybrid, name)
         table = {"HAS_GMPY": False, "USE_GMPY": False, "mpz_type": None, "mpq_type": None,
                  "Fraction": ExtRef("fractions.Fraction"), "pyFraction": ExtRef("fractions.Fraction"),
                  "FractionClass": ExtRef("Fraction"), "IntegerClass": ExtRef("int"), "USE_Z3": False,
